@@ -400,6 +400,12 @@ def gibbs_joint(rec, ctx=None):
         x = LMRF(0, scale=lambda d: 1 / d, geometry=n, name="x")
         y = Gaussian(mk_model()(x), 0.3, name="y")
         J = JointDistribution(*_perm(rec, [y, x, d]))(y=yobs)
+    elif shape == "x_d_a":      # three levels: the Gamma hyper-prior of d depends on another sampled block a
+        a = Gamma(2.0, 1.0, name="a")
+        d = Gamma(1.0, rate=lambda a: a, name="d")
+        x = Gaussian(np.zeros(n), prec=lambda d: d, name="x")
+        y = Gaussian(mk_model()(x), 0.3, name="y")
+        J = JointDistribution(*_perm(rec, [y, x, d, a]))(y=yobs)
     elif shape == "x_z_s":      # two vector blocks entering one likelihood + noise precision
         s = Gamma(1.0, 1e-1, name="s")
         x = Gaussian(np.zeros(n), 1.0, name="x")
@@ -420,6 +426,7 @@ GIBBS_SHAPES = {
     "x_d_s": {"x": ["LinearRTO", "MH", "CWMH", "NUTS"], "d": ["Conjugate", "MH"], "s": ["Conjugate", "MH"]},
     "x_d_lmrf": {"x": ["UGLA", "MH", "CWMH"], "d": ["ConjugateApprox", "MH"]},
     "x_z_s": {"x": ["MH", "CWMH"], "z": ["MH", "CWMH"], "s": ["Conjugate", "MH"]},
+    "x_d_a": {"x": ["LinearRTO", "MH"], "d": ["Conjugate", "Conjugate", "MH"], "a": ["MH"]},
 }
 LEGACY_GIBBS_SHAPES = {
     "x_s": {"x": ["LinearRTO", "CWMH", "MH"], "s": ["Conjugate", "MH"]},
@@ -452,7 +459,7 @@ def gen_gibbs_scenario(r, legacy=False):
             kn["scale"] = r.choice([0.1, 0.4])
         elif kind in ("LinearRTO", "UGLA"):
             kn["maxit"] = r.choice([5, 30])
-        if kind in ("MH", "CWMH", "MALA", "ULA", "NUTS", "PCN") and b in ("s", "d"):
+        if kind in ("MH", "CWMH", "MALA", "ULA", "NUTS", "PCN") and b in ("s", "d", "a"):
             kn["initial_point"] = [round(r.uniform(0.5, 2.0), 3)]
         strat[b] = {"kind": kind, "knobs": kn}
     steps = {b: r.choice([1, 1, 2, 3]) for b in strat} if not legacy else None
